@@ -538,7 +538,9 @@ func purgeLockRace(args []string) error {
 				defer wg.Done()
 				st, _ := e.client()
 				<-start
-				oks[i] = core.PurgeLock(st, core.WithPurgeLogger(zap.NewNop())) == nil
+				// the option set of the commands: force as given (off), resume for every other job
+				oks[i] = core.PurgeLock(st, core.WithPurgeLogger(zap.NewNop()), core.WithPurgeForce(false),
+					core.WithPurgeResumeIndex(i%2 == 1)) == nil
 			}(i)
 		}
 		close(start)
@@ -559,8 +561,9 @@ func purgeLockRace(args []string) error {
 		// a forced lock always succeeds; unlock removes it; a new lock then succeeds
 		forced := core.PurgeLock(st, core.WithPurgeForce(true), core.WithPurgeLogger(zap.NewNop())) == nil
 		unlocked := core.PurgeUnlock(st, core.WithPurgeLogger(zap.NewNop())) == nil
-		again := core.PurgeLock(st, core.WithPurgeLogger(zap.NewNop())) == nil
-		second := core.PurgeLock(st, core.WithPurgeLogger(zap.NewNop())) == nil
+		again := core.PurgeLock(st, core.WithPurgeLogger(zap.NewNop()), core.WithPurgeForce(false), core.WithPurgeResumeIndex(true)) == nil
+		// (a job asking to resume an index does not own the lock for that: it is refused like any other)
+		second := core.PurgeLock(st, core.WithPurgeLogger(zap.NewNop()), core.WithPurgeForce(false), core.WithPurgeResumeIndex(round%2 == 0)) == nil
 		res.Behaviours++
 		res.Steps += n + 4
 		res.Nontrivial++
